@@ -82,9 +82,11 @@ CHECKS["C06"] = ("Proof: C06.add_keeps_every_file — --add on the archive of an
 CHECKS["C07"] = ("Proof: C07.wellformed_image_extracted_exactly — for every four-sided image whose sides are consistent file systems (any writer, "
                  "any allocation order, fragmentation, deleted / never-used entries anywhere) with ordinary names, --extract returns 0 and writes "
                  "per side exactly the files the independent decoder Spec.Dos.files finds, in catalog order, with the content it assigns to the "
-                 "chain; chain following on any linked table, size formula, load side counts, efficient reader = readFile. Not proved: that "
-                 "Spec.Dos.render (the independent writer used to make test images) only produces consistent sides (executed and fsck'd on every "
-                 "image). Tie/oracle: images from an independent writer (Python twin = Lean render, incl. one 157-block chain) through real "
+                 "chain; C07.independent_writer_is_read_exactly — for every well-formed description of a side (any slots, allocation order, "
+                 "fragmentation, 1..8 sectors in the last block, 0..255 bytes in the last sector, deleted entries, extra reserved blocks, any "
+                 "filler) the side laid out by the independent writer Spec.Dos.render is consistent and the tool's reader finds exactly the "
+                 "description's files with exactly their content; chain following on any linked table, size formula, load side counts, efficient "
+                 "reader = readFile. Tie/oracle: images from an independent writer (Python twin = Lean render, incl. one 157-block chain) through real "
                  "list/extract vs model vs abstract files.", D, "7 C07")
 CHECKS["C10"] = ("Proof: C10.placement_rule — a file offered while the cursor is on side cur is stored on the first side k >= cur that has enough "
                  "free blocks and a free catalog entry, the cursor stops there; if none can take it, it is stored nowhere and the cursor ends past "
@@ -121,8 +123,9 @@ CHECKS["C14"] = ("Proof: C14.lossless — for every ASCII line body, detokenizin
                  "printable listings, keyword pairs, all strings <= 4/5 over 9 symbols through the real tool vs model, decoded by the Lean "
                  "detokenizer and compared with the source.", D, "7 C14")
 CHECKS["C18"] = ("Proof (PARTIAL by nature): tape reader visits at most len/7 blocks for every byte string; the chain walk returns a "
-                 "duplicate-free chain of at most 161 entries for every table; catalog scan is 112 slots; every path written by tape and disk "
-                 "extract is destination(/sideN)/name with no '/' or NUL. CPU time and memory are observed, not proved: real list/extract on "
+                 "duplicate-free chain of at most 161 entries for every table; catalog scan is 112 slots; C18.disk_confined / tape_confined — for "
+                 "EVERY byte string given as archive, every path extract writes is destination(/sideN)/name with no '/' or NUL and the only "
+                 "directories created are destination/sideN; disk_list_readonly — listing any bytes writes nothing. CPU time and memory are observed, not proved: real list/extract on "
                  "mutated archives in subprocesses under RLIMIT_CPU/AS with an audit hook on every open/mkdir, plus model comparison.", D, "7 C18")
 CHECKS["C19"] = ("Proof (PARTIAL by nature): over the regenerated CLI description — all documented packages and declared scripts resolve, no "
                  "abbreviations, required exclusive action groups with the documented actions; tape extract writes under --into else beside the "
